@@ -420,7 +420,7 @@ def run(ctx, rep, cases=None):
     tp = common.use_repo()
     import torch
     if cases is None:
-        cases = [make_case(ctx, i) for i in range(ctx.scale(320, 4000))]
+        cases = [make_case(ctx, i) for i in range(ctx.scale(280, 4000))]
         cases += [make_depprod_case(ctx, 100000 + i) for i in range(ctx.scale(6, 40))]
         extras = True
     else:
@@ -547,7 +547,8 @@ def run(ctx, rep, cases=None):
             consumers(ctx, rep, cs, node, res, boxes[0], e, replies)
     if extras:
         rot3_cases(ctx, rep, [make_rot3_case(ctx, 200000 + i) for i in range(ctx.scale(40, 400))])
-        history_cases(ctx, rep, [make_history(ctx, 300000 + i) for i in range(ctx.scale(50, 500))])
+        history_cases(ctx, rep, [make_history(ctx, 300000 + i) for i in range(ctx.scale(40, 500))])
+        order_cases(ctx, rep, [make_order_case(ctx, 400000 + i) for i in range(ctx.scale(24, 300))])
         opaque_histories(ctx, rep)
         opaque_cases(ctx, rep)
 
@@ -574,6 +575,59 @@ def cmp_model(rep, cs, node, res, model, d2):
         rep.count("box-agrees-with-model")
 
 
+def norm_all_orders(rep, dom, var_names, members, bx, fail_input, what="domain"):
+    """NormalizationLayer(dom) applied to the member points (flat coordinates in the order `var_names` = domain.space)
+    presented in EVERY order of the variables (Points objects built by hand from column blocks): all images in the cube,
+    and the same image — variable by variable — whatever the storage order.  Returns False after a failure."""
+    tp = common.use_repo()
+    import torch
+    d = len(bx) // 2
+    dims = [DIM[v_] for v_ in var_names]
+    offs = [sum(dims[:i]) for i in range(len(dims))]
+    x = torch.tensor([[float(a) for a in p_] for p_ in members], dtype=torch.float32)
+    try:
+        layer = tp.models.NormalizationLayer(dom)
+    except Exception as ex:  # noqa
+        rep.fail(f"NormalizationLayer({what}) raised {type(ex).__name__}: {str(ex)[:160]}", fail_input)
+        return False
+    allow = torch.tensor([1 + 1e-4 + 2 * tol_of(bx) / (bx[2 * i + 1] - bx[2 * i]) for i in range(d)])
+    ref = None
+    perms = list(itertools.permutations(range(len(var_names))))[:6]
+    for perm in perms:
+        order = [var_names[i] for i in perm]
+        sp = None
+        for v_ in order:
+            s_ = {1: tp.spaces.R1, 2: tp.spaces.R2, 3: tp.spaces.R3}[DIM[v_]](v_)
+            sp = s_ if sp is None else sp * s_
+        xt = torch.cat([x[:, offs[i]:offs[i] + dims[i]] for i in perm], dim=1)
+        try:
+            out = layer(tp.spaces.Points(xt, sp))
+            y = torch.cat([out.coordinates[v_] for v_ in var_names], dim=1).detach()
+        except Exception as ex:  # noqa
+            rep.fail(f"NormalizationLayer({what}) raised {type(ex).__name__}: {str(ex)[:160]} for points whose variables are stored in the order {order}",
+                     dict(fail_input, order=order))
+            return False
+        rep.count("normalised-points", len(members))
+        rep.count("normalised-in-order:" + ("domain" if list(perm) == sorted(perm) else "permuted"))
+        excess = y.abs() - allow
+        if bool((excess > 0).any()) or not bool(torch.isfinite(y).all()):
+            j = int(excess.max(dim=1).values.argmax())
+            rep.fail(f"NormalizationLayer built from the bounding box {bx} maps the {what} point "
+                     f"{dict(zip(var_names, [[float(a) for a in members[j][offs[i]:offs[i] + dims[i]]] for i in range(len(dims))]))}, presented with its variables "
+                     f"in the order {order}, to {dict((v_, out.coordinates[v_][j].tolist()) for v_ in var_names)} — outside [-1, 1]^{d}",
+                     dict(fail_input, point=[str(a) for a in members[j]], order=order))
+            return False
+        if ref is None:
+            ref = y
+        elif not torch.allclose(y, ref, atol=1e-5, rtol=1e-5):
+            j = int((y - ref).abs().max(dim=1).values.argmax())
+            rep.fail(f"NormalizationLayer maps the same {what} point {[float(a) for a in members[j]]} to {ref[j].tolist()} when its variables are stored in the "
+                     f"order {var_names} and to {y[j].tolist()} (read by name) when they are stored in the order {order}",
+                     dict(fail_input, point=[str(a) for a in members[j]], order=order))
+            return False
+    return True
+
+
 def consumers(ctx, rep, cs, node, res, bx, e, replies):
     tp = common.use_repo()
     import torch
@@ -589,21 +643,7 @@ def consumers(ctx, rep, cs, node, res, bx, e, replies):
         if replies[cl + j].split()[0] == "1":
             members.append(flat_point(member_node(node), pt))
     if members and node.kind != "bdry":
-        try:
-            layer = tp.models.NormalizationLayer(dom)
-            x = torch.tensor([[float(a) for a in p] for p in members], dtype=torch.float32)
-            y = layer(tp.spaces.Points(x, dom.space)).as_tensor
-        except Exception as ex:  # noqa
-            rep.fail(f"NormalizationLayer(domain) raised {type(ex).__name__}: {str(ex)[:160]}", slim(cs))
-            return
-        rep.count("normalised-points", len(members))
-        # a float32 point may sit a rounding error outside the box: allow that error in normalised units
-        allow = torch.tensor([1 + 1e-4 + 2 * tol_of(bx) / (bx[2 * i + 1] - bx[2 * i]) for i in range(d)])
-        excess = y.abs() - allow
-        if bool((excess > 0).any()) or not bool(torch.isfinite(y).all()):
-            j = int(excess.max(dim=1).values.argmax())
-            rep.fail(f"NormalizationLayer built from the bounding box maps the domain point {[float(a) for a in members[j]]} to {y[j].tolist()} — outside [-1, 1]^{d}",
-                     dict(slim(cs), point=[str(a) for a in members[j]]))
+        if not norm_all_orders(rep, dom, member_node(node).vars(), members, bx, slim(cs)):
             return
     # Latin-hypercube proposals
     if node.kind != "bdry":
@@ -868,6 +908,14 @@ def rot3_cases(ctx, rep, cases):
                 if out > tl and (worst is None or out > worst[0]):
                     worst = (out, ax, i, q_, img)
         rep.count("member-points-checked", n_in)
+        if worst is None and cs["k"] == 0 and all(bx[2 * a + 1] - bx[2 * a] > 1e-6 for a in range(3)):
+            imgs = []
+            for j, (i, pt) in enumerate(e["cands"]):
+                if replies[e["cand_line"] + j].split()[0] == "1":
+                    q_ = flat_point(inner, pt)
+                    imgs.append([sum(M[a][b] * (q_[b] - ctr[b]) for b in range(3)) + ctr[a] for a in range(3)])
+            if imgs and not norm_all_orders(rep, dom, inner.vars(), imgs, bx, cs, what="rotated 3-D domain"):
+                continue
         if worst is not None:
             out, ax, i, q_, img = worst
             rep.fail(f"a point of the rotated 3-D domain lies outside the returned bounding box: axis {ax} of the box is "
@@ -1082,6 +1130,113 @@ def opaque_histories(ctx, rep):
                 break
 
 
+# ---------------------------------------------------------------------------------------------
+# consequence clause in every variable order: products of two / three factors whose axes have clearly different
+# boxes; points presented in all orders and as they come out of product samplers in shuffled factor order
+
+def make_order_case(ctx, idx):
+    rng = ctx.rng
+    g = Gen(rng, params=[])
+    x = g.solid(rng.choice([1, 2]), rng.choice(["x", "x", "z"]))
+    lo1, lo2 = Fr(rng.choice([10, -20, 40, 7])), Fr(rng.choice([-100, 300, -3, 55]))
+    t = Node("interval", "t", [PF([c(lo1)]), PF([c(lo1 + dy(rng, 0.5, 4))])])
+    s_ = Node("interval", "s", [PF([c(lo2)]), PF([c(lo2 + dy(rng, 5, 30))])])
+    shape = rng.choice(["x*t", "t*x", "(x*t)*s", "(t*x)*s", "(s*t)*x"])
+    if shape == "x*t":
+        node = Node("prod", None, [], [x, t])
+    elif shape == "t*x":
+        node = Node("prod", None, [], [t, x]) if len(x.vars()) == 1 and x.is_prim() else Node("prod", None, [], [x, t])
+    elif shape == "(x*t)*s":
+        node = Node("prod", None, [], [Node("prod", None, [], [x, t]), s_])
+    elif shape == "(t*x)*s":
+        node = Node("prod", None, [], [Node("prod", None, [], [t, Node("interval", "y", [PF([c(Fr(-1))]), PF([c(dy(rng, 0, 2))])])]), s_])
+    else:
+        node = Node("prod", None, [], [Node("prod", None, [], [s_, t]), Node("interval", "y", [PF([c(Fr(2))]), PF([c(dy(rng, 2.5, 4))])])])
+    return dict(id=idx, kind="order", mode="order", dom=node.describe(), pvars=[], rows=[{}], k=0)
+
+
+def factors(node):
+    return factors(node.kids[0]) + factors(node.kids[1]) if node.kind == "prod" else [node]
+
+
+def order_cases(ctx, rep, cases):
+    tp = common.use_repo()
+    import torch
+    lines, plan = [], []
+    for cs in cases:
+        node = geomgen.from_json(cs["dom"])
+        e = dict(case=cs, node=node, line=len(lines))
+        lines.append(f"bbox {node.tokens()} 1 0")
+        cands = candidate_points(node, {}, ctx.rng, 9)
+        e["cand_line"] = len(lines)
+        for pt in cands:
+            lines.append(f"contains {ATOL} {RTOL} {BATOL} {node.tokens()} {env_tokens(pt)} 0")
+        e["cands"] = cands
+        plan.append(e)
+    replies = common.run_driver("C18", lines)
+    for e in plan:
+        cs, node = e["case"], e["node"]
+        rep.count("mode:order")
+        rep.count("order-factors:%d" % len(factors(node)))
+        model = replies[e["line"]]
+        try:
+            dom = node.to_tp(tp)
+            box = dom.bounding_box()
+            bx = [float(a) for a in box.reshape(-1).tolist()]
+        except Exception as ex:  # noqa
+            rep.fail(f"bounding_box of a product raised {type(ex).__name__}: {str(ex)[:160]}", cs)
+            continue
+        rep.case(dict(order=cs["dom"]), True, sample=dict(expression=node.tokens(), implementation=bx, model=model), kind="order")
+        d2 = 2 * sum(DIM[v_] for v_ in node.vars())
+        if not model.startswith("flat ") or len(bx) != d2:
+            rep.disagree("drivers/C18.lean bbox (product of several factors)", cs, bx, model)
+            continue
+        mv = [Fr(a) for a in model.split()[1:]]
+        if any(abs(a - float(b)) > tol_of(mv) for a, b in zip(bx, mv)):
+            rep.disagree("drivers/C18.lean bbox (product of several factors): numbers differ", cs, bx, [float(a) for a in mv])
+            continue
+        members = [flat_point(node, pt) for j, pt in enumerate(e["cands"]) if replies[e["cand_line"] + j].split()[0] == "1"]
+        rep.count("member-points-checked", len(members))
+        bad = [p_ for p_ in members if any(float(p_[a]) < bx[2 * a] - tol_of(bx) or float(p_[a]) > bx[2 * a + 1] + tol_of(bx) for a in range(len(p_)))]
+        if bad:
+            rep.fail(f"a point {[float(a) for a in bad[0]]} of the product lies outside its bounding box {bx}", cs)
+            continue
+        if any(bx[2 * a + 1] - bx[2 * a] <= 1e-6 for a in range(d2 // 2)):
+            continue
+        if members and not norm_all_orders(rep, dom, node.vars(), members, bx, cs, what="product-domain"):
+            continue
+        # points as product samplers deliver them, factors multiplied in a shuffled order
+        fs = factors(node)
+        torch.manual_seed(cs["id"])
+        try:
+            smps = [tp.samplers.RandomUniformSampler(f_.to_tp(tp), n_points=3) for f_ in fs]
+            ctx.rng.shuffle(smps)
+            prod_s = smps[0]
+            for s_ in smps[1:]:
+                prod_s = prod_s * s_
+            pts = common.call_with_timeout(2, prod_s.sample_points)
+            layer = tp.models.NormalizationLayer(dom)
+        except BaseException as ex:  # noqa  (sampling defects belong to C01 / C02)
+            if isinstance(ex, KeyboardInterrupt):
+                raise
+            rep.count("order:sampler-unavailable")
+            continue
+        try:
+            out = layer(pts)
+            y = torch.cat([out.coordinates[v_] for v_ in node.vars()], dim=1).detach()
+        except Exception as ex:  # noqa
+            rep.fail(f"NormalizationLayer(product) raised {type(ex).__name__}: {str(ex)[:160]} on the output of a product sampler "
+                     f"whose variables are in the order {list(pts.space.keys())}", cs)
+            continue
+        rep.count("normalised-product-sampler-points", len(y))
+        if list(pts.space.keys()) != node.vars():
+            rep.count("product-sampler-order-differs-from-domain")
+        if not bool((y.abs() <= 1 + 1e-3).all()):
+            j = int(y.abs().max(dim=1).values.argmax())
+            rep.fail(f"NormalizationLayer built from the bounding box {bx} maps the sampled point {dict((v_, pts.coordinates[v_][j].tolist()) for v_ in node.vars())} "
+                     f"(output of a product sampler, variables stored in the order {list(pts.space.keys())}) to {dict((v_, out.coordinates[v_][j].tolist()) for v_ in node.vars())} — outside the cube", cs)
+
+
 def replay(ctx, obj):
     rep = common.Report(ctx)
     lean = common.lean_check("C18")
@@ -1090,6 +1245,8 @@ def replay(ctx, obj):
         opaque_cases(ctx, rep)
     elif inp.get("kind") == "rot3":
         rot3_cases(ctx, rep, [inp])
+    elif inp.get("kind") == "order":
+        order_cases(ctx, rep, [{k_: inp[k_] for k_ in ("id", "kind", "mode", "dom", "pvars", "rows", "k")}])
     elif inp.get("kind") == "history":
         history_cases(ctx, rep, [inp])
     elif inp.get("kind") == "opaque-history":
